@@ -58,7 +58,21 @@ func init() {
 			NotCov:  "equality of results across option sets as such (runtime behaviour)."},
 	)
 	addRules("C01", "R-COMMITTED-READ", "R-LEAFCHAIN")
-	addRules("C03", "R-LEAFCHAIN")
+	addRules("C03", "R-LEAFCHAIN", "R-REGEX-REMAINDER")
+	addRules("C02", "R-METARANGE", "R-LEAFCHAIN")
+	addRules("C13", "R-LOCKMAP", "R-TXPAIR", "R-LOGPURE", "R-LOGGED")
+	addRules("C05", "R-LOGPURE", "R-LOGGED")
+	addRules("C06", "R-LOGGED", "R-LOGPURE")
+	addRules("C07", "R-LOGGED", "R-LOGPURE")
+	addRules("C12", "R-LOGGED")
+	addRules("C10", "R-RECOVER-ORDER")
+	addRules("C08", "R-RECOVER-ORDER")
+	addRules("C01", "R-RECOVER-ORDER")
+	reg("R-RECOVER-ORDER", "In the cone of Open no membership test on the committed-transaction-id set (comma-ok lookup keyed by a record's txID) is followed on any path, including the next iteration of an enclosing loop and through calls, by an insertion into that set: records are judged only after every segment was scanned, because a transaction's commit marker can lie in a later segment than its first records.", ruleRecoverOrder)
+	reg("R-LOGGED", "In every Tx method that can reach the pending-write gate (other than the variadic fan-out wrappers), each call site leading to the gate lies on every path from the entry to every return whose error may be nil: no API reports success with its operation, or one record of a multi-record operation, not enqueued.", ruleLogged)
+	reg("R-LOGPURE", "The byte/string arguments at every gate-reaching call site of a Tx method depend only on the call's own arguments, not on committed index state (loads through tx.db, results of module calls on the transaction); the pop operations, which log the element they chose, are the named exception.", ruleLogPure)
+	reg("R-REGEX-REMAINDER", "Every regular-expression match in the cone of Tx.PrefixSearchScan is applied to the scanned key with the scan's prefix parameter stripped (TrimPrefix(key, prefix) or key[len(prefix):]) and that key is the one tested with HasPrefix against the same prefix.", ruleRegexRemainder)
+	reg("R-METARANGE", "The conditional updates of BucketMeta.start (new minimum) and BucketMeta.end (new maximum) of one object are not mutually exclusive: some path performs both.", ruleMetaRange)
 	reg("R-LEAFCHAIN", "The B+ tree leaf chain that every scan walks: all walkers advance through one constant slot of Node.pointers, that slot is the last one and above every record slot, and every store that links a node into it is a list splice (fresh node; new.link = old.link or old.link == nil on every path, read before old.link = new); the slot is written nowhere else.", ruleLeafChain)
 	addRules("C02", "R-SEGPRED", "R-NEWEST", "R-COMMITTED-READ", "R-COMMITTED-SCAN-SPARSE", "R-REPLAY-KV")
 	addRules("C12", "R-COMMITTED-SCAN-SPARSE")
